@@ -309,7 +309,7 @@ func genC08(seed uint64, run int, tier string) *Plan {
 			tp.Ops = append(tp.Ops, Op{K: "clock", Ms: pick(r, int64(5000), 3600000, 86400000, -5000, -3600000)})
 		}
 		if p.Cfg.Store == "file" && r.IntN(15) == 0 {
-			tp.Ops = append(tp.Ops, Op{K: "restart"})
+			tp.Ops = append(tp.Ops, Op{K: "restart", N: r.IntN(2)})
 			if r.IntN(2) == 0 {
 				tp.Ops = append(tp.Ops, Op{K: "sleep", Ms: 1100})
 			}
